@@ -123,6 +123,9 @@ def main():
         official = None
         op = os.path.join(d, 'official_run.txt')
         if os.path.exists(op): official = open(op).read().strip()
+        import re as _re
+        mo = _re.search(r'exit=(\d)', official or '')
+        if mo: mx[prop] = int(mo.group(1))          # the target check was re-run last, with the change applied to /repo itself
         desc, needs = DESC.get(i, ('', ''))
         lines = [l.strip() for l in conf.splitlines()]
         def after(tag):
@@ -139,6 +142,8 @@ def main():
         rows.append(meta)
     with open(os.path.join(HERE, 'seeded', 'MATRIX.md'), 'w') as f:
         f.write("# Seeded changes vs checks (exit codes of the quick checks: 0 pass, 1 VIOLATION, 2 undecided, 3 no verdict)\n\n")
+        f.write("The target check of every change was re-run at the end with the change applied to /repo (`official_run.txt`). The cross-check cells (other checks on the same change) "
+                "were produced when the change was first tested and were not all repeated after later engine changes (`matrix_from` in each meta.json); rounds -e were run against their target check only.\n\n")
         f.write("| seeded change | breaks | needs | caught by (exit 1) | no verdict (2/3) |\n|---|---|---|---|---|\n")
         for m in rows:
             f.write("| %s: %s | %s | %s | %s | %s |\n" % (m['id'], m['change'], m['breaks_property'], m['needs_to_manifest'], ' '.join(m['caught_by']) or '-', ' '.join("%s(%s)" % (k, m['checks_exit_codes'][k]) for k in m['no_verdict']) or '-'))
